@@ -71,10 +71,11 @@ class DbosIncarnation:
 
             async def observed_resume(run_id, pending_tick=None):
                 import re
-                w.trace.log("dbos-resume", run=run_id, pending=type(getattr(pending_tick, "event", None)).__name__ if pending_tick is not None else None)
+                w.trace.log("dbos-resume", run=run_id, pending=type(getattr(pending_tick, "event", None)).__name__ if pending_tick is not None else None,
+                            uid=getattr(getattr(pending_tick, "event", None), "uid", None))
                 try:
                     r = await orig_resume(run_id, pending_tick=pending_tick)
-                    w.trace.log("dbos-resumed", run=run_id)
+                    w.trace.log("dbos-resumed", run=run_id, uid=getattr(getattr(pending_tick, "event", None), "uid", None))
                     return r
                 except Exception as e:  # noqa: BLE001
                     w.trace.log("reload-error", exc=type(e).__name__, msg=re.sub(r"\d+", "N", str(e))[:100], run=run_id)
